@@ -241,6 +241,15 @@ func (b *Buffer) Read(packet []byte) (n int, err error) { //nolint:gocognit,cycl
 			}
 
 			b.count--
+			if b.head != b.tail && !b.closed {
+				// More packets are buffered. A writer posts at most one wake-up token
+				// however many packets it adds while readers are parked, so pass the
+				// token on: otherwise another parked reader sleeps with data available.
+				select {
+				case b.notify <- struct{}{}:
+				default:
+				}
+			}
 			b.mutex.Unlock()
 
 			if copied < count {
